@@ -933,6 +933,7 @@ class Pyramid(object):
     def _walk_parallel(self, callback, cli_progress, parallel):
         import multiprocessing as mp
         from queue import Empty
+        from .par_util import ensure_workers_ok, join_workers
 
         # When dispatching we keep track of finished tiles (reported in
         # `done_queue`) and notify workers when new tiles are ready to process
@@ -1033,6 +1034,11 @@ class Pyramid(object):
                 except (OSError, ValueError, Empty):
                     # OSError or ValueError => queue closed. This signal seems not to
                     # cross multiprocess lines, though.
+                    #
+                    # If a worker has died (e.g. because the callback raised an
+                    # exception), the tile that it was working on will never be
+                    # reported and we must not wait for it forever.
+                    ensure_workers_ok(workers, done_event)
                     continue
 
                 progress.update(1)
@@ -1061,9 +1067,7 @@ class Pyramid(object):
         ready_queue.close()
         ready_queue.join_thread()
         done_event.set()
-
-        for w in workers:
-            w.join()
+        join_workers(workers)
 
     def visit_leaves(
         self,
@@ -1158,6 +1162,7 @@ class Pyramid(object):
 
     def _visit_leaves_parallel(self, callback, total, cli_progress, parallel):
         import multiprocessing as mp
+        from .par_util import join_workers, put_checking_workers
 
         ready_queue = mp.Queue(maxsize=2 * parallel)
         done_event = mp.Event()
@@ -1182,7 +1187,7 @@ class Pyramid(object):
         with progress_bar(total=total, show=cli_progress) as progress:
             for pos, tile, is_leaf, _data in riter:
                 if is_leaf:
-                    ready_queue.put((pos, tile))
+                    put_checking_workers(ready_queue, (pos, tile), workers, done_event)
                     progress.update(1)
 
                 riter.set_data(None)
@@ -1192,9 +1197,7 @@ class Pyramid(object):
         ready_queue.close()
         ready_queue.join_thread()
         done_event.set()
-
-        for w in workers:
-            w.join()
+        join_workers(workers)
 
 
 class PyramidReductionIterator(object):
